@@ -106,7 +106,9 @@ def main():
     confirmed = 0
     if failure:
         # the shrunk case must fail deterministically before it is reported
-        for _ in range(3):
+        ex.close()
+        ex = Executor(a.exe, wall_ms=3 * getattr(mod, "WALL_MS", 20000))
+        for _ in range(10 if ctx["native"] else 3):
             r = ex.run(failure["case"])
             if r.failed() or (not r.harness_problem() and r.verdict != "timeout"
                               and mod.judge(failure["case"], r, ctx)):
